@@ -194,7 +194,7 @@ def verify(c: Contract, tier: str = "quick", replay: bool = True, chunk: tuple[i
             variants = _variants(c)
             res.variants = len(variants)
             for ch in variants:
-                _verify_variant(c, tier, replay, res, ch)
+                _verify_variant(c, tier, replay, res, ch, chunk)
     except (Unsupported, Budget) as ex:
         res.status = "undecided"
         res.error = f"{type(ex).__name__}: {ex}"
@@ -218,7 +218,7 @@ def verify(c: Contract, tier: str = "quick", replay: bool = True, chunk: tuple[i
     return res
 
 
-def _verify_variant(c: Contract, tier: str, replay: bool, res: Result, choice: dict[str, int]) -> None:
+def _verify_variant(c: Contract, tier: str, replay: bool, res: Result, choice: dict[str, int], chunk: tuple[int, int] = (0, 1)) -> None:
     timeout = c.timeout_s * (6 if tier == "thorough" else 1)
     eng = Interp()
     eng.max_paths = c.max_paths
@@ -300,11 +300,15 @@ def _verify_variant(c: Contract, tier: str, replay: bool, res: Result, choice: d
             conds = [k.when(a) if k.when is not None else True for k in raise_cases if _case_match(k.exc, ev.etype)]
             allowed = sym.Or(*conds) if conds else False
             vcs.append(VC(f"{c.name}{tag}.path{i}.raise-{ev.etype.__name__}", "raise-region", ev.site, pc, SBool.lift(allowed), detail=f"{ev.etype.__name__} raised at {ev.site}"))
-    if c.crosscheck and not c.canary:
+    if c.crosscheck and not c.canary and not any(hasattr(x, "register") for x in list(vals.values()) + list(b.named.values())):
         _crosscheck(c, vals, base, choice, res, c.crosscheck)
     if len(vcs) < c.min_obligations:
         raise Unsupported(f"only {len(vcs)} obligations generated (< {c.min_obligations}): vacuity guard")
 
+    if chunk[1] > 1:
+        vcs = [vc for k, vc in enumerate(vcs) if k % chunk[1] == chunk[0]]
+        if chunk[0] != 0:
+            res.paths = 0
     for vc in vcs:
         discharge(vc, base, timeout, axioms=getattr(eng, "axiom_instantiator", None))
         res.n_obligations += 1
@@ -314,6 +318,17 @@ def _verify_variant(c: Contract, tier: str, replay: bool, res: Result, choice: d
         if vc.status == "proved":
             res.n_discharged += 1
         elif vc.status == "failed":
+            if z3.is_and(vc.cond) or (z3.is_implies(vc.cond) and z3.is_and(vc.cond.arg(1))):
+                # name the failing conjuncts of the postcondition
+                prem = vc.cond.arg(0) if z3.is_implies(vc.cond) else None
+                conj = (vc.cond.arg(1) if prem is not None else vc.cond).children()
+                bad = []
+                for ci, cj in enumerate(conj):
+                    sub = VC(vc.name, vc.kind, vc.site, vc.pc + ([prem] if prem is not None else []), cj)
+                    discharge(sub, base, min(timeout, 10), axioms=getattr(eng, "axiom_instantiator", None))
+                    if sub.status != "proved":
+                        bad.append(f"#{ci}:{sub.status}:{str(cj)[-260:]}")
+                vc.detail = (vc.detail + " " if vc.detail else "") + "failing conjuncts: " + "; ".join(bad[:6])
             d["detail"] = vc.detail
             f = dict(d)
             if vc.model is not None:
@@ -453,7 +468,7 @@ def replay_concrete(c: Contract, vals: dict[str, Any], model: Any, choice: dict[
     if any(hasattr(x, "register") for x in vals.values()):
         return {"confirmed": False, "note": "inputs are abstract (symbolic calendar): no concrete replay; the failed obligation and solver model are the evidence"}
     try:
-        cvals = {k: concretize(v, ev, live=True) for k, v in vals.items()}
+        cvals = _enumify(c, {k: concretize(v, ev, live=True) for k, v in vals.items()})
         kind, value = call_real(c, cvals)
         # inputs may have been mutated by the call: rebuild for contract evaluation of `old` state
         cvals2 = {k: concretize(v, ev, live=True) for k, v in vals.items()}
@@ -461,6 +476,15 @@ def replay_concrete(c: Contract, vals: dict[str, Any], model: Any, choice: dict[
         return {"confirmed": not ok, "observed": f"{kind}: {_short(value)}", "why": why}
     except Exception as ex:  # noqa: BLE001
         return {"confirmed": False, "note": f"replay error {type(ex).__name__}: {ex}"}
+
+
+def _enumify(c: Contract, cvals: dict[str, Any]) -> dict[str, Any]:
+    from .contracts import EnumInt
+
+    for n, g in c.ghosts + c.args + c.kwargs:
+        if isinstance(g, EnumInt) and isinstance(cvals.get(n), int):
+            cvals[n] = g.to_member(cvals[n])
+    return cvals
 
 
 def _short(v: Any) -> str:
@@ -508,8 +532,8 @@ def _crosscheck(c: Contract, vals: dict[str, Any], base: list[Any], choice: dict
     done = 0
     for m in models:
         ev = _mk_eval(m)
-        sym_vals = {k: concretize(v, ev, live=False) for k, v in vals.items()}
-        live_vals = {k: concretize(v, ev, live=True) for k, v in vals.items()}
+        sym_vals = _enumify(c, {k: concretize(v, ev, live=False) for k, v in vals.items()})
+        live_vals = _enumify(c, {k: concretize(v, ev, live=True) for k, v in vals.items()})
         eng = Interp()
         eng.max_paths = 200
         eng.loop_specs = {}
